@@ -962,6 +962,11 @@ def strip_turn_folds(v, turn=360):
             a, b = strip_turn_folds(at.args[1], turn), strip_turn_folds(at.args[2], turn)
             if _whole_turns(a - b, turn):
                 return b
+        if at.kind == 'fn' and at.name in ('mod', 'fmod') and len(at.args) == 2 and isinstance(at.args[0], Rat) and isinstance(at.args[1], Rat):
+            # u % 360 is u minus a whole number of turns
+            m_ = at.args[1]
+            if m_.is_const() and m_.const_value() is not None and not m_.const_value().im and m_.const_value().re == turn:
+                return strip_turn_folds(at.args[0], turn)
         return None
     try:
         return alg.map_atoms(v, f)
